@@ -21,7 +21,7 @@ def _schema(n_est):
     @unit("C13", f"schema.{n_est}_estimands", fns=[f"{MRH}.add_unit_predictions", f"{MRH}.add_unit_intervals", f"{MRH}.add_agg_predictions", f"{MRH}.process_final_results"])
     def schema(h):
         """the returned tables keep the same key and category columns however many estimands are requested"""
-        alphas = [0.9]
+        alphas = [0.9, 0.7]  # deliberately not ascending: the labels must follow the request, not a position
         extra_int = []
         for e in ests[1:]:
             extra_int += [f"results_{e}", f"last_election_results_{e}"]
@@ -35,8 +35,8 @@ def _schema(n_est):
             k, _ = h.call_method(mr, "add_unit_predictions", e, pred)
             pis = {}
             for a in alphas:
-                lo = V(z3.Function(f"unit_lower_{e}", z3.IntSort(), z3.IntSort())(u), (t.nonrep.axis,), None)
-                up = V(z3.Function(f"unit_upper_{e}", z3.IntSort(), z3.IntSort())(u), (t.nonrep.axis,), None)
+                lo = V(z3.Function(f"unit_lower_{e}_{a}", z3.IntSort(), z3.IntSort())(u), (t.nonrep.axis,), None)
+                up = V(z3.Function(f"unit_upper_{e}_{a}", z3.IntSort(), z3.IntSort())(u), (t.nonrep.axis,), None)
                 pis[a] = NamedTuple("PredictionIntervals", ["lower", "upper", "conformalization"], [lo, up, None])
             k, _ = h.call_method(mr, "add_unit_intervals", e, pis)
             if k == "raise":
@@ -49,7 +49,7 @@ def _schema(n_est):
             for c in (f"pred_{e}", f"results_{e}"):
                 est.cols[c] = V(z3.Function(f"state_{c}", z3.StringSort(), z3.IntSort())(gs.keyvars["postal_code"]), (ax,), est.index)
             est.cols["reporting"] = V(cnt, (ax,), est.index)
-            ints = {a: NamedTuple("PredictionIntervals", ["lower", "upper"], [V(z3.Function(f"state_lower_{e}", z3.StringSort(), z3.IntSort())(gs.keyvars["postal_code"]), (ax,), est.index), V(z3.Function(f"state_upper_{e}", z3.StringSort(), z3.IntSort())(gs.keyvars["postal_code"]), (ax,), est.index)]) for a in alphas}
+            ints = {a: NamedTuple("PredictionIntervals", ["lower", "upper"], [V(z3.Function(f"state_lower_{e}_{a}", z3.StringSort(), z3.IntSort())(gs.keyvars["postal_code"]), (ax,), est.index), V(z3.Function(f"state_upper_{e}_{a}", z3.StringSort(), z3.IntSort())(gs.keyvars["postal_code"]), (ax,), est.index)]) for a in alphas}
             k, _ = h.call_method(mr, "add_agg_predictions", e, "postal_code", est, ints)
             if k == "raise":
                 return h.fail("add_agg_predictions.no_raise", f"raised {_}")
@@ -61,9 +61,17 @@ def _schema(n_est):
         keys_unit = ["postal_code", "geographic_unit_fips", "reporting", "unit_category"]
         h.ensures("unit_table.key_and_category_columns_exactly_once", all(list(ud.cols).count(c) == 1 for c in keys_unit) and not any(c.startswith("unit_category_") for c in ud.cols), why=f"unit_data columns: {list(ud.cols)}")
         h.ensures("state_table.key_columns_exactly_once", all(list(sd.cols).count(c) == 1 for c in ["postal_code", "reporting"]), why=f"state_data columns: {list(sd.cols)}")
+        srows = z3.And(*sd.axis.facts())
+        urows = z3.And(*ud.axis.facts())
         for e in ests:
-            for c in (f"pred_{e}", f"results_{e}", f"lower_0.9_{e}", f"upper_0.9_{e}"):
+            for c in [f"pred_{e}", f"results_{e}"] + [f"{s_}_{a}_{e}" for a in alphas for s_ in ("lower", "upper")]:
                 h.ensures(f"every_requested_column_present[{c}]", c in ud.cols and c in sd.cols)
+            for a in alphas:
+                for s_ in ("lower", "upper"):
+                    want = z3.Function(f"state_{s_}_{e}_{a}", z3.StringSort(), z3.IntSort())(gs.keyvars["postal_code"])
+                    h.ensures(f"state_table.{s_}_{a}_{e}_is_the_interval_computed_for_that_level", z3.Implies(srows, sd.col(f"{s_}_{a}_{e}").t == want))
+                    wantu = z3.Function(f"unit_{s_}_{e}_{a}", z3.IntSort(), z3.IntSort())(u)
+                    h.ensures(f"unit_table.{s_}_{a}_{e}_is_the_interval_computed_for_that_level", z3.Implies(z3.And(urows, t.N), ud.col(f"{s_}_{a}_{e}").t == wantu))
         facts = z3.And(*t.root.facts())
         h.ensures("unit_table.every_unit_still_exactly_once", z3.Implies(facts, ud.axis.multiplicity() == z3.If(z3.Or(t.R, t.N, t.T), 1, 0)))
         # the first estimand's columns are what a single-estimand request would have returned
